@@ -734,11 +734,19 @@ Lemma holds_ref_deletion : spec_C09 w_ref_deletion (run_C09 w_ref_deletion) = tr
 Proof. vm_compute. split; reflexivity. Qed.
 Lemma holds_tombstone : spec_C09 w_tombstone (run_C09 w_tombstone) = true /\ known_C09 w_tombstone = [].
 Proof. vm_compute. split; reflexivity. Qed.
-(* 6: still refuted: the newer version of a stored id arrives under another entity *)
+(* 6, repaired (9b19d99): the newer version of a stored id arrives under another entity *)
 Definition w_entity_change : c09case :=
   CDaily 1000 [IBatch [MOp (SNodes 1 [sn 1 1 5000 1; sn 2 1 6000 2])]; IBatch [MCompute]; ICheck;
                IBatch [MOp (SNodes 1 [sn 1 2 (D + 7000) 3])]; IBatch [MCompute]; ICheck].
-Lemma refuted_entity_change : spec_C09 w_entity_change (run_C09 w_entity_change) = false /\ known_C09 w_entity_change = [6].
+Lemma holds_entity_change : spec_C09 w_entity_change (run_C09 w_entity_change) = true /\ known_C09 w_entity_change = [].
+Proof. vm_compute. split; reflexivity. Qed.
+(* 7: an edge tombstone replaced by one for the same edge and instant under another source entity *)
+Definition etomb (ent sg : N) : edel :=
+  {| ed_room := 1; ed_edge := {| e_src := 1; e_ent := ent; e_label := 1; e_dest := 2; e_cdate := 1500 |}; ed_date := 2000; ed_sig := sg |}.
+Definition w_edge_tombstone : c09case :=
+  CDaily 1000 [IBatch [MOp (SDelEdges [etomb 1 1])]; IBatch [MCompute]; ICheck;
+               IBatch [MOp (SDelEdges [etomb 2 2])]; IBatch [MCompute]; ICheck].
+Lemma refuted_edge_tombstone : spec_C09 w_edge_tombstone (run_C09 w_edge_tombstone) = false /\ known_C09 w_edge_tombstone = [7].
 Proof. vm_compute. split; reflexivity. Qed.
 Lemma refuted_history :
   spec_C09 w_history_onepass (run_C09 w_history_onepass) = true /\ known_C09 w_history_onepass = [] /\
@@ -814,8 +822,8 @@ Qed.
 
 Lemma full_refuted : ~ C09_full.
 Proof.
-  intro H. specialize (H w_entity_change). destruct refuted_entity_change as [E _].
-  rewrite E in H. assert (T : no_pending w_entity_change = true) by (vm_compute; reflexivity). specialize (H T). discriminate.
+  intro H. specialize (H w_history_daybyday). destruct refuted_history as [_ [_ [E _]]].
+  rewrite E in H. assert (T : no_pending w_history_daybyday = true) by (vm_compute; reflexivity). specialize (H T). discriminate.
 Qed.
 
 (* ------------------------------------------------------------------ the repaired writes cover *)
@@ -903,15 +911,12 @@ Proof.
   - apply uncovered_intro. rewrite E. exact C.
 Qed.
 
-(* class 1, repaired (4510e5f): synchronised nodes mark the day the previous version leaves and the day
-   the new one enters; what remains uncovered is exactly a version that arrives under another entity
-   than the stored row of that id (class 6) *)
-Definition same_entity (s : state) (x : snode) : Prop :=
-  forall old, find_node_id s (sn_id x) = Some old -> n_ent old = sn_ent x.
-Lemma ingest1_covers : forall room s ms x, same_entity s x ->
+(* classes 1 and 6, repaired (4510e5f, 9b19d99): synchronised nodes mark the day the previous version
+   leaves — under the entity it is stored with — and the day the new one enters: unconditionally *)
+Lemma ingest1_covers : forall room s ms x,
   exists new, snd (ingest1 room (s, ms) x) = ms ++ new /\ step_covers s (fst (ingest1 room (s, ms) x)) new.
 Proof.
-  intros room s ms x Hse. unfold ingest1.
+  intros room s ms x. unfold ingest1.
   destruct (match max_tombstone s (sn_id x) with Some m => sn_mdate x <=? m | None => false end).
   { exists []. split; [cbn [snd]; rewrite app_nil_r; reflexivity | intros k _; reflexivity]. }
   destruct (find_node_id s (sn_id x)) as [old|] eqn:Hf.
@@ -921,24 +926,24 @@ Proof.
     apply key_mem_app_false in Hk as [Hold Hnew]. apply key_mem_cons_false in Hnew as [Hnew _].
     unfold content, sigs. cbn [nodes ndels edels set_tables]. f_equal. f_equal. f_equal. f_equal.
     unfold find_node_id in Hf. eapply replace_first_filter; [exact Hf | |].
-    + unfold node_key. rewrite (Hse old Hf). destruct (n_room old) as [ro|]; [|reflexivity].
+    + unfold node_key. destruct (n_room old) as [ro|]; [|reflexivity].
       cbn [okey_is room_mark] in *. apply key_mem_cons_false in Hold as [Hold _]. exact Hold.
     + unfold node_key; cbn [n_room n_ent n_mdate okey_is]. exact Hnew.
   - eexists. split; [cbn [snd]; reflexivity|]. cbn [fst]. intros k Hk. apply key_mem_cons_false in Hk as [Hk _].
     unfold content, sigs. cbn [nodes ndels edels set_tables]. rewrite filter_app, map_app. cbn [filter].
     unfold node_key; cbn [n_room n_ent n_mdate okey_is]. rewrite Hk. cbn [map]. rewrite app_nil_r. reflexivity.
 Qed.
-Theorem sync_update_covers : forall s room ns, pall (ingest1 room) same_entity s ns ->
+Theorem sync_update_covers : forall s room ns,
   let r := exec_op (SNodes room ns) s in uncovered s (fst r) (snd r) = [].
 Proof.
-  intros s room ns Hp. cbn [exec_op].
-  destruct (fold_covers (ingest1 room) same_entity) with (xs := ns) (s := s) (ms := @nil lkey) as [new [E C]].
-  - intros s0 ms x Hx. apply ingest1_covers; exact Hx.
+  intros s room ns. cbn [exec_op].
+  destruct (fold_covers (ingest1 room) (fun _ _ => True)) with (xs := ns) (s := s) (ms := @nil lkey) as [new [E C]].
+  - intros s0 ms x _. apply ingest1_covers.
   - intros s0 ms x. unfold ingest1.
     destruct (match max_tombstone s0 (sn_id x) with Some m => sn_mdate x <=? m | None => false end); [reflexivity|].
     destruct (find_node_id s0 (sn_id x)) as [old|]; [|reflexivity].
     destruct ((sn_mdate x <? n_mdate old) || ((sn_mdate x =? n_mdate old) && N.leb (sn_sig x) (n_sig old))); reflexivity.
-  - exact Hp.
+  - induction ns as [|x t IH] in s |- *; cbn [pall]; auto.
   - apply uncovered_intro. rewrite E. exact C.
 Qed.
 
